@@ -394,7 +394,8 @@ impl UserRx {
             flushed_packets += 1;
         }
 
-        if flushed_bytes > 0 {
+        // Zero-length messages (EOF) also need to reach a blocked reader.
+        if flushed_packets > 0 {
             let waker = self.shared.locked.lock().reader_waker.take();
             if let Some(w) = waker {
                 w.wake();
